@@ -105,12 +105,22 @@ def swizzle_forces_target(w, signed, lo, hi, timeout_ms=30000, ranges=None, pick
         indom = z3.Or(*[z3.And(fint >= z3.BitVecVal(a, symex.W), fint <= z3.BitVecVal(b, symex.W)) for a, b in ranges])
     s.add(tz >= L, tz <= H, indom, conj, fint != tz)
     r = s.check()
+    if r == z3.unsat:
+        # second obligation: the constraints ADMIT the drawn target (otherwise they are dropped as unsatisfiable and the field is
+        # left to the solver's default model: 'forces f == t' would hold vacuously)
+        s2 = z3.Solver()
+        s2.set("timeout", timeout_ms)
+        s2.add(tz >= L, tz <= H, fint == tz, z3.Not(conj))
+        r2 = s2.check()
+        if r2 != z3.unsat:
+            return ("sat" if r2 == z3.sat else str(r2)), (s2.model() if r2 == z3.sat else None), len(nodes), d_width
     return str(r), (s.model() if r == z3.sat else None), len(nodes), d_width
 
 
 def replay_swizzle_concrete(w, signed, ranges, pick, t, fval):
     """replay of a kernel counterexample on the real code with the real Boolector: with the RNG stub returning the concrete
-    range index and target t, the constraints built by create_rand_domain_constraint still admit f == fval (!= t)"""
+    range index and target t, the constraints built by create_rand_domain_constraint still admit f == fval (!= t), or -- for
+    fval == t -- reject the target itself"""
     import pyboolector
     from vsc.model.field_scalar_model import FieldScalarModel
     from vsc.model.solvegroup_swizzler_partsel import SolveGroupSwizzlerPartsel
@@ -136,6 +146,8 @@ def replay_swizzle_concrete(w, signed, ranges, pick, t, fval):
     for e in swz.create_rand_domain_constraint(f, Bound()):
         btor.Assert(e.build(btor))
     btor.Assert(btor.Eq(f.var, btor.Const(fval & ((1 << w) - 1), w)))
+    if fval == t:
+        return btor.Sat() != btor.SAT          # 'rejects its own target' counterexample
     return btor.Sat() == btor.SAT
 
 
